@@ -21,7 +21,8 @@ DefaultTok == [root |-> <<36>>, self |-> <<64>>, key |-> <<35>>, ctx |-> <<95>>,
 StdStyle == [q |-> 39, sp |-> <<>>, dot |-> FALSE, paren |-> "min", uni |-> FALSE, num |-> "plain",
              words |-> FALSE, ne |-> <<33, 61>>, nil |-> <<110, 117, 108, 108>>, tru |-> <<116, 114, 117, 101>>,
              fls |-> <<102, 97, 108, 115, 101>>, undef |-> <<117, 110, 100, 101, 102, 105, 110, 101, 100>>,
-             bare |-> FALSE, rootless |-> FALSE, tok |-> DefaultTok]
+             bare |-> FALSE, rootless |-> FALSE, tok |-> DefaultTok,
+             every |-> FALSE]                                  \* every character of a quoted name or string written \uXXXX (upper-case hex)
 
 Hex(d) == IF d < 10 THEN 48 + d ELSE 87 + d          \* lower-case hex digit
 Hex4(c) == <<Hex(c \div 4096), Hex((c \div 256) % 16), Hex((c \div 16) % 16), Hex(c % 16)>>
@@ -38,6 +39,11 @@ EscChar(c, q, uni) ==
     [] c > 126 /\ uni -> UEsc(c)
     [] OTHER -> <<c>>
 Quote(t, q, uni) == <<q>> \o Flat([i \in 1..Len(t) |-> EscChar(t[i], q, uni)]) \o <<q>>
+\* the legal but non-canonical spelling: every character as \uXXXX with upper-case hex digits (a surrogate pair beyond the BMP)
+HexU(d) == IF d < 10 THEN 48 + d ELSE 55 + d
+U16U(c) == <<92, 117, HexU(c \div 4096), HexU((c \div 256) % 16), HexU((c \div 16) % 16), HexU(c % 16)>>
+UEscU(c) == IF c < 65536 THEN U16U(c) ELSE U16U(55296 + ((c - 65536) \div 1024)) \o U16U(56320 + ((c - 65536) % 1024))
+QuoteSt(t, st) == IF st.every THEN <<st.q>> \o Flat([i \in 1..Len(t) |-> UEscU(t[i])]) \o <<st.q>> ELSE Quote(t, st.q, st.uni)
 
 \* RFC 9535 2.7 normalized-path escaping (single quotes; \b \f \n \r \t, \u00xx lower-case hex)
 NormalQuote(t) == Quote(t, 39, FALSE)
@@ -63,7 +69,7 @@ RenderNum(h, num) ==
   ELSE (IF h < 0 THEN <<45>> ELSE <<>>) \o Digits((IF h < 0 THEN -h ELSE h) \div 2) \o <<46, 53>>
 RenderLit(v, st) ==
   CASE v.t = "null" -> st.nil [] v.t = "bool" -> (IF v.b THEN st.tru ELSE st.fls)
-    [] v.t = "num" -> RenderNum(v.h, st.num) [] v.t = "str" -> Quote(v.s, st.q, st.uni)
+    [] v.t = "num" -> RenderNum(v.h, st.num) [] v.t = "str" -> QuoteSt(v.s, st)
 
 OpText(op, st) == CASE op = "==" -> <<61, 61>> [] op = "!=" -> st.ne [] op = "<>" -> <<60, 62>> [] op = "<" -> <<60>>
                    [] op = "<=" -> <<60, 61>> [] op = ">" -> <<62>> [] op = ">=" -> <<62, 61>>
@@ -80,7 +86,7 @@ NotText(st) == IF st.words THEN <<110, 111, 116, 32>> ELSE <<33>> \o st.sp
 RECURSIVE RenderSegs(_, _), RenderSel(_, _), RenderExpr(_, _, _), RenderOperand(_, _), RenderQ(_, _, _)
 
 RenderSel(s, st) ==
-  CASE s.k = "name" -> IF st.bare /\ ShorthandOK(s.s) /\ s.s \notin Reserved THEN s.s ELSE Quote(s.s, st.q, st.uni)
+  CASE s.k = "name" -> IF st.bare /\ ShorthandOK(s.s) /\ s.s \notin Reserved THEN s.s ELSE QuoteSt(s.s, st)
     [] s.k = "index" -> Decimal(s.i)
     [] s.k = "wild" -> <<42>>
     [] s.k = "keys" -> st.tok.keys
